@@ -14,7 +14,7 @@ from __future__ import annotations
 
 from fractions import Fraction
 
-from lcmsa.core import callee_name, is_term
+from lcmsa.core import callee_name, is_term, walk
 
 # positional signatures of the library functions that occur in lcm
 SIGNATURES = {
@@ -228,6 +228,96 @@ def _mk_cat(parts):
     return ("cat", tuple(out))
 
 
+def _subst_terms(t, mapping):
+    if not isinstance(t, tuple):
+        return t
+    if is_term(t) and t in mapping:
+        return mapping[t]
+    return tuple(_subst_terms(x, mapping) if isinstance(x, tuple) else x for x in t)
+
+
+def _range_len_of(it):
+    """range(len(S)) -> S ; range(S.ndim) -> S.shape ; else None."""
+    if not (is_term(it) and it[0] == "call" and it[1] == ("glob", "builtins.range") and len(it[2]) == 1 and not it[3]):
+        return None
+    n = it[2][0]
+    if n[0] == "call" and n[1] == ("glob", "builtins.len") and len(n[2]) == 1 and not n[3]:
+        return n[2][0]
+    if n[0] == "attr" and n[2] == "ndim":
+        return ("attr", n[1], "shape")
+    return None
+
+
+def deindex(t):
+    """Positional iteration in one shape (single-generator comprehensions only).
+
+    ``f(A[i], B[i]) for i in range(len(A))``  ->  ``f(a, b) for a, b in zip(A, B)``
+    ``g(i, A[i]) for i in range(len(A))``     ->  ``g(i, a) for i, a in enumerate(A)``
+    ``zip(B, A, strict=...)``                 ->  ``zip(A, B)`` with the targets permuted
+    The sequences iterated together are assumed to have one length (what `strict=True` enforces
+    and what indexing by a common range presupposes); which of them supplied the length and
+    whether a mismatch raises or truncates is not part of the normal form.
+    """
+    if not isinstance(t, tuple):
+        return t
+    return _deindex1(tuple(deindex(x) if isinstance(x, tuple) else x for x in t))
+
+
+def _deindex1(t):
+    if not (is_term(t) and t[0] == "comp" and len(t) == 4 and len(t[3]) == 1):
+        return t
+    tg, it, conds = t[3][0]
+    body = (t[2], conds)
+    if is_term(tg) and tg[0] == "bv":
+        S = _range_len_of(it)
+        if S is not None:
+            subs, bare = [], [0]
+
+            def scan(x):
+                if not isinstance(x, tuple):
+                    return
+                if is_term(x):
+                    if x == tg:
+                        bare[0] += 1
+                        return
+                    if x[0] == "sub" and x[2] == tg and tg not in set(walk(x[1])):
+                        if x[1] not in subs:
+                            subs.append(x[1])
+                        scan(x[1])
+                        return
+                for y in x:
+                    scan(y)
+
+            scan(body)
+            depth = tg[1]
+            if subs and S in subs and not bare[0]:
+                xs = sorted(subs, key=repr)
+                if len(xs) == 1:
+                    m = {("sub", xs[0], tg): tg}
+                    elt, cs = _subst_terms(t[2], m), _subst_terms(conds, m)
+                    return ("comp", t[1], elt, ((tg, xs[0], cs),))
+                bvs = tuple(("bv", depth, k) for k in range(len(xs)))
+                m = {("sub", x, tg): b for x, b in zip(xs, bvs, strict=True)}
+                elt, cs = _subst_terms(t[2], m), _subst_terms(conds, m)
+                return ("comp", t[1], elt, ((("tuple", bvs), ("call", ("glob", "builtins.zip"), tuple(xs), ()), cs),))
+            if subs == [S] and bare[0]:
+                i2, a2 = ("bv", depth, 0), ("bv", depth, 1)
+                m = {("sub", S, tg): a2}
+                elt, cs = _subst_terms(t[2], m), _subst_terms(conds, m)
+                return ("comp", t[1], elt, ((("tuple", (i2, a2)), ("call", ("glob", "builtins.enumerate"), (S,), ()), cs),))
+        return t
+    if (is_term(tg) and tg[0] == "tuple" and all(is_term(b) and b[0] == "bv" for b in tg[1])
+            and is_term(it) and it[0] == "call" and it[1] == ("glob", "builtins.zip") and len(it[2]) == len(tg[1])
+            and all(k == "strict" for k, _ in it[3])):
+        pairs = sorted(zip(it[2], tg[1], strict=True), key=lambda p: repr(p[0]))
+        depth = tg[1][0][1]
+        m = {b: ("bv", depth, k) for k, (_x, b) in enumerate(pairs)}
+        elt, cs = _subst_terms(t[2], m), _subst_terms(conds, m)
+        bvs = tuple(("bv", depth, k) for k in range(len(pairs)))
+        return ("comp", t[1], elt, ((("tuple", bvs), ("call", ("glob", "builtins.zip"), tuple(x for x, _ in pairs), ()), cs),))
+    return t
+
+
 def norm(t, _arith=True):  # noqa: C901, PLR0911, PLR0912
     if not is_term(t):
         if isinstance(t, tuple):
@@ -397,6 +487,9 @@ def norm(t, _arith=True):  # noqa: C901, PLR0911, PLR0912
     if tag == "boolop":
         return ("boolop", t[1], tuple(norm(x) for x in t[2]))
     if tag == "comp":
+        t2 = _deindex1(t)
+        if t2 != t:
+            return norm(t2)
         gens = tuple((norm(tg), norm(_strip_keys(it)), tuple(norm(c) for c in conds)) for tg, it, conds in t[3])
         elt = (norm(t[2][0]), norm(t[2][1])) if t[1] == "dict" else norm(t[2])
         return ("comp", t[1], elt, gens)
